@@ -1,0 +1,77 @@
+//go:build verif
+
+// Contracts for package zapgrpc, read by /verif/govc. Comment-only.
+
+package zapgrpc
+
+//@ callback zapgrpc.printer.print
+//@   flags maypanic
+//@   modifies $user
+
+//@ callback zapgrpc.printer.printf
+//@   flags maypanic
+//@   modifies $user
+
+//@ func zapgrpc.sprintln
+//@   props C06
+//@   flags nopanic
+//@   modifies nothing
+
+//@ func (*zapgrpc.printer).Print
+//@   props C06
+//@   flags nopanic propagates-panics
+//@   requires v != nil && v.print != nil
+//@   track P = field zapgrpc.printer.print
+//@   modifies $user
+//@   ensures #P == 1 && P.arg0[0] == args
+
+//@ func (*zapgrpc.printer).Printf
+//@   props C06
+//@   flags nopanic propagates-panics
+//@   requires v != nil && v.printf != nil
+//@   track P = field zapgrpc.printer.printf
+//@   modifies $user
+//@   ensures #P == 1 && P.arg0[0] == format && P.arg1[0] == args
+
+// Println: the level guard only saves formatting work; from DPanic upward the delegate must
+// be called regardless (it carries the terminal action), as the sugared logger does.
+//@ func (*zapgrpc.printer).Println
+//@   props C06 C05
+//@   flags nopanic propagates-panics
+//@   requires v != nil && v.print != nil && v.enab != nil
+//@   track P = field zapgrpc.printer.print
+//@   modifies $user
+//@   ensures #P <= 1
+//@   ensures #P == 1 <==> (old(v.level) >= zapcore.DPanicLevel || enabled(old(v.enab), old(v.level)))
+
+//@ func (*zapgrpc.Logger).Fatal
+//@   props C06
+//@   flags nopanic propagates-panics
+//@   requires l != nil && l.fatal != nil && l.fatal.print != nil
+//@   track F = call (*zapgrpc.printer).Print
+//@   modifies $user
+//@   ensures #F == 1 && F.recv[0] == old(l.fatal) && F.arg0[0] == args
+
+//@ func (*zapgrpc.Logger).Fatalln
+//@   props C06
+//@   flags nopanic propagates-panics
+//@   requires l != nil && l.fatal != nil && l.fatal.print != nil && l.fatal.enab != nil
+//@   track F = call (*zapgrpc.printer).Println
+//@   modifies $user
+//@   ensures #F == 1 && F.recv[0] == old(l.fatal) && F.arg0[0] == args
+
+//@ func (*zapgrpc.Logger).Fatalf
+//@   props C06
+//@   flags nopanic propagates-panics
+//@   requires l != nil && l.fatal != nil && l.fatal.printf != nil
+//@   track F = call (*zapgrpc.printer).Printf
+//@   modifies $user
+//@   ensures #F == 1 && F.recv[0] == old(l.fatal) && F.arg0[0] == format && F.arg1[0] == args
+
+//@ func (*zapgrpc.Logger).V
+//@   props C05
+//@   flags nopanic
+//@   requires l != nil && l.levelEnabler != nil
+//@   track EN = invoke zapcore.LevelEnabler.Enabled
+//@   modifies nothing
+//@   ensures #EN == 1 && EN.recv[0] == l.levelEnabler && result == EN.ret0[0]
